@@ -20,11 +20,11 @@ Local Open Scope Z_scope.
 (* ---------- results ---------- *)
 Inductive err :=
 | EMissingCtx      (* CylcMissingContextPointError *)
-| EType            (* TypeError: None used as a point / interval *)
+| EType            (* TypeError: None used as a point / interval (constructor only) *)
 | EIntervalParse   (* IntervalParsingError *)
 | EZeroDiv         (* ZeroDivisionError: `% int(self.i_step)` with P0 *)
 | ENegInterval     (* ValueError "negative intervals not supported yet" *)
-| ERecursion       (* RecursionError: the method calls itself with the same argument *)
+| ERecursion       (* RecursionError seen on the implementation (the model reports EFuel) *)
 | EFuel            (* model artefact: fuel exhausted *)
 | EOther.          (* any other exception class seen on the implementation; the model never returns it *)
 
@@ -222,24 +222,20 @@ Definition valid_core (c : core) (p : Z) : bool :=
 Definition excl_has (x : list Z * list core) (p : Z) : bool :=
   mem Z.eqb p (fst x) || existsb (fun c => valid_core c p) (snd x).
 
-(* `ret in self.exclusions` where ret may be None: `None in exclusion_points`
-   is False, then `seq.is_valid(None)` raises TypeError in
-   `int(point - self.p_start)` for the first exclusion sequence with a truthy
-   step (one-off exclusion sequences just answer False) *)
-Definition excl_has_opt (x : list Z * list core) (p : option Z) : res bool :=
+(* `ret in self.exclusions` where ret may be None:
+   ExclusionBase.__contains__ starts with `if point is None: return False` *)
+Definition excl_has_opt (x : list Z * list core) (p : option Z) : bool :=
   match p with
-  | Some v => Ok (excl_has x v)
-  | None =>
-      if existsb (fun c => match truthy_step (c_step c) with Some _ => true | None => false end) (snd x)
-      then Err EType else Ok false
+  | Some v => excl_has x v
+  | None => false
   end.
 
 (* `self.exclusions and point in self.exclusions` *)
 Definition excluded (s : seq) (p : Z) : bool :=
   match s_excl s with None => false | Some x => excl_has x p end.
 
-Definition excluded_opt (s : seq) (p : option Z) : res bool :=
-  match s_excl s with None => Ok false | Some x => excl_has_opt x p end.
+Definition excluded_opt (s : seq) (p : option Z) : bool :=
+  match s_excl s with None => false | Some x => excl_has_opt x p end.
 
 (* ---------- the query API ---------- *)
 Definition is_on_sequence (s : seq) (p : Z) : bool :=
@@ -261,8 +257,7 @@ Fixpoint get_prev_point (fuel : nat) (s : seq) (p : Z) : res (option Z) :=
           let i := (p - c_start (s_core s)) mod k in
           let prev := if i =? 0 then p - k else p - i in
           let ret := in_bounds s prev in
-          do ex <- excluded_opt s ret;
-          if ex then
+          if excluded_opt s ret then
             match ret with
             | Some r => get_prev_point fl s r
             | None => Ok None      (* unreachable: None is never "in" *)
@@ -317,8 +312,7 @@ Definition get_start_point (fuel : nat) (s : seq) : res (option Z) :=
   else Ok (Some (c_start (s_core s))).
 
 Definition get_stop_point (fuel : nat) (s : seq) : res (option Z) :=
-  do ex <- excluded_opt s (c_stop (s_core s));
-  if ex then
+  if excluded_opt s (c_stop (s_core s)) then
     match c_stop (s_core s) with
     | Some e => get_prev_point fuel s e
     | None => Ok None
@@ -338,24 +332,18 @@ Fixpoint nprev_loop (fuel : nat) (s : seq) (p : Z) (sp prev : option Z) : res (o
       end
   end.
 
-Fixpoint get_nearest_prev_point (fuel : nat) (s : seq) (p : Z) : res (option Z) :=
-  match fuel with
-  | O => Err EFuel
-  | S fl =>
-      if is_on_sequence s p then get_prev_point (S fl) s p
-      else
-        do prev <- nprev_loop (S fl) s p (in_bounds s (c_start (s_core s))) None;
-        do ex <- excluded_opt s prev;
-        if ex then
-          match prev with
-          | Some r =>
-              (* `return self.get_nearest_prev_point(prev_point)`; with
-                 prev_point == point the call repeats itself for ever *)
-              if r =? p then Err ERecursion else get_nearest_prev_point fl s r
-          | None => Ok None
-          end
-        else Ok prev
-  end.
+Definition get_nearest_prev_point (fuel : nat) (s : seq) (p : Z) : res (option Z) :=
+  if is_on_sequence s p then get_prev_point fuel s p
+  else
+    do prev <- nprev_loop fuel s p (in_bounds s (c_start (s_core s))) None;
+    if excluded_opt s prev then
+      match prev with
+      | Some r =>
+          (* only the start point can be an excluded prev_point here *)
+          get_prev_point fuel s r
+      | None => Ok None
+      end
+    else Ok prev.
 
 (* ---------- correspondence interface ---------- *)
 (* an answer of the implementation: value, None, or exception class *)
